@@ -30,6 +30,42 @@ add(
     "DESIGN.md section 4, C13",
 )
 
+add(
+    "C01", "exploration",
+    "property-based testing (Hypothesis) with a from-scratch validity oracle + exhaustive small-scope sweep + CLI cross-check",
+    "Every match returned by match_to() for generated (adapter type, sequence, error rate/number, overlap, wildcard "
+    "switches, indels, read) is re-validated from scratch: coordinates, placement rule of the type, minimum overlap, "
+    "independent edit/Hamming distance under an independent wildcard model, error budget (exact and float). An "
+    "exhaustive sweep covers all adapters over {A,C,N} and reads over {A,C,N,a} up to small lengths for all eight types; "
+    "a CLI slice checks --info-file columns against the API match.",
+    "Held on everything explored. Trusted: the oracle's own wildcard model (written from the documentation), Python.",
+    "DESIGN.md section 4, C01",
+)
+add(
+    "C02", "exploration",
+    "property-based testing (Hypothesis) against a reference enumeration of admissible occurrences (DP cross-checked "
+    "with brute force) + exhaustive small-scope sweep",
+    "Reads are constructed to contain occurrences (edited full copies, partial overlaps at either end, infixes, two "
+    "copies); a reference model decides whether an admissible occurrence exists under the placement rule, overlap and "
+    "tolerance, and a match is then demanded (error-free: all types; within tolerance: indels off or types that cannot "
+    "skip the adapter start). Position bounds for error-free copies (regular 3'/5', rightmost, anchored). The failing "
+    "layer (prefilter vs aligner) is attributed in the message.",
+    "Held on everything explored; the with-indels clause excludes start-skipping types as the property states.",
+    "DESIGN.md section 4, C02",
+)
+add(
+    "C07", "exploration",
+    "differential property-based testing (prefilter vs always-true finder; KmerFinder vs substring reference) + "
+    "exhaustive small-scope sweep",
+    "match_to() with the shipped k-mer prefilter is compared with the same adapter using the always-true finder on "
+    "generated configurations weighted towards anchored/non-internal adapters with indels, anywhere-capable adapters "
+    "on short reads and reads shorter than the search windows; KmerFinder.kmers_present is compared with a pure-Python "
+    "windowed substring search under an independent wildcard relation.",
+    "Held on everything explored after three repository fixes (F4a-c). Memory safety of the C code is judged by the "
+    "sanitizer build only in the thorough tier.",
+    "DESIGN.md section 4, C07",
+)
+
 NOT_APPLICABLE = []  # filled below for every property without a check
 
 ALL_IDS = [f"C{i:02d}" for i in range(1, 21)]
